@@ -1,10 +1,11 @@
-(* Properties/C13.v — power method (tree after repair 5612f82).
+(* Properties/C13.v — power method (tree after repairs 5612f82 and 734f679).
    Statements only; every proof is `exact` of a lemma of Proofs/Power.v.
    Vocabulary (Proofs/Power.v): [shaped h w a] = a is an h x w array whose buffer
    has h*w entries; [rect h w rows] = h rows of length w; [rsum n f] = sum_{k<n} f k;
    [rayleigh n A v] = v^T (A v) / v^T v; [pm_state A k] (Model/Power.v) = the pair
    (eigenvalue, eigenvector) after k executions of the loop body, k = 0 being
-   the state before the loop whose eigenvalue is the first scaling component. *)
+   the state before the loop whose eigenvalue is the Rayleigh quotient of the
+   first normalised vector x0 = (A 1) / scaling_component (A 1). *)
 From Coq Require Import ZArith NArith List Reals Floats Lia Lra.
 From SV Require Import Base.Num Base.Outcome Base.Mat Model.Power Proofs.Power.
 Import ListNotations.
@@ -95,16 +96,17 @@ Print Assumptions c13_shape_norm.
 
 (* The only way to an Ok answer is the relative-change test: lam is the Rayleigh
    quotient computed by loop body number k+1 (k < MAX_ITERATIONS), prev the
-   eigenvalue estimate of the state before it (for k = 0 the first scaling
-   component, for k > 0 the previous Rayleigh quotient), and
+   eigenvalue estimate of the state before it (for k = 0 the Rayleigh quotient of
+   the first normalised vector x0, for k > 0 the previous Rayleigh quotient), and
    |lam - prev| < es |lam|.  The side condition lam <> 0 is needed in R only
    (x / 0 = 0 makes ea = 0 there; with floats ea is NaN or inf and the test fails). *)
 Theorem c13_exit_means_small_change : forall (rows : list (list R)) (es lam : R) (v : arr R),
   power_method rows es = Ok (lam, v) ->
   exists (A : arr R) (k : nat) (prev : R) (x : arr R) (ea : R),
     try_from rows = Ok A /\ (N.of_nat k < MAX_ITERATIONS)%N /\
-    (exists s0 x0, pm_state A 0 = Ok (s0, x0) /\
-                   scaling_component (amul A (afull 1 (ah A) 1)) = Ok s0) /\
+    (exists x0 s0, pm_state A 0 = Ok (rayleigh (ah A) A x0, x0) /\
+       scaling_component (amul A (afull 1 (ah A) 1)) = Ok s0 /\
+       forall i, (i < ah A)%nat -> aget x0 i 0 = aget (amul A (afull 1 (ah A) 1)) i 0 / s0) /\
     pm_state A k = Ok (prev, x) /\
     pm_step A prev x = Ok (lam, v, ea) /\
     ea = Rabs ((lam - prev) / lam) /\ ea < es /\
@@ -114,8 +116,9 @@ Check c13_exit_means_small_change : forall (rows : list (list R)) (es lam : R) (
   power_method rows es = Ok (lam, v) ->
   exists (A : arr R) (k : nat) (prev : R) (x : arr R) (ea : R),
     try_from rows = Ok A /\ (N.of_nat k < MAX_ITERATIONS)%N /\
-    (exists s0 x0, pm_state A 0 = Ok (s0, x0) /\
-                   scaling_component (amul A (afull 1 (ah A) 1)) = Ok s0) /\
+    (exists x0 s0, pm_state A 0 = Ok (rayleigh (ah A) A x0, x0) /\
+       scaling_component (amul A (afull 1 (ah A) 1)) = Ok s0 /\
+       forall i, (i < ah A)%nat -> aget x0 i 0 = aget (amul A (afull 1 (ah A) 1)) i 0 / s0) /\
     pm_state A k = Ok (prev, x) /\
     pm_step A prev x = Ok (lam, v, ea) /\
     ea = Rabs ((lam - prev) / lam) /\ ea < es /\
@@ -127,10 +130,8 @@ Print Assumptions c13_exit_means_small_change.
      for i >= 2, l1 <> 0 of either sign, <1, q1> <> 0, and every tolerance 0 < tol:
      power_method A tol = Ok (lam, v)  with  ||A v - lam v|| <= C sqrt(tol) |lam| ||v||  and
      |lam - l1| <= C tol |l1|   (C = 8).
-   Missing: the spectral theorem and the convergence analysis of the iteration.  Moreover the
-   statement is FALSE as it stands for the code (finding F13e, known_findings.d/C13.json): the
-   exit test compares the first Rayleigh quotient with the first scaling component, and two
-   successive estimates can agree to within tol by coincidence long before convergence.
+   Missing: the spectral theorem and the convergence analysis of the iteration (in particular a
+   proof that two successive Rayleigh quotients cannot agree to within tol before convergence).
    Proved here: the case n = 1, where the answer is exact. *)
 Theorem c13_accuracy_partial : forall a es : R, a <> 0 -> 0 < es ->
   power_method [[a]] es = Ok (a, mk_arr 1 1 [1]).
